@@ -442,6 +442,7 @@ def _name_parts(e: ast.AST) -> Optional[List[str]]:
 def run_node_name(ctx: Ctx) -> RuleResult:
     repo = ctx.repo
     res = RuleResult('R-NODE-NAME', 'the node name derived from a rule is alias or template source or origin name, at every site')
+    res.default_props = ['C03', 'C16']
     want = ['alias', 'options.template_source', 'origin.name']
     sites = [('lark.parse_tree_builder:ParseTreeBuilder.create_callback', 'user_callback_name'),
              ('lark.parsers.earley_forest:TreeForestTransformer._call_rule_func', 'name')]
@@ -460,7 +461,8 @@ def run_node_name(ctx: Ctx) -> RuleResult:
         res.ob('%s %s' % (f.loc(), f.qual), 'node name == alias or options.template_source or origin.name (found %s)' % parts, ok)
         if not ok:
             res.finding(f, f.node, 'the node name is computed as %s here, but as %s elsewhere: the same rule gets different node names / '
-                        'callback names depending on the engine' % (parts, want), construct='node-name:%s' % parts)
+                        'callback names depending on the engine' % (parts, want), construct='node-name:%s' % parts,
+                        props=['C03', 'C16'] + (['C17'] if not (isinstance(parts, list) and 'options.template_source' in parts) else []))
     # the expanded-single-child exception must not apply to aliased alternatives
     ib = repo.func('lark.parse_tree_builder:ParseTreeBuilder._init_builders')
     ok = has_pat(ib.body_nodes(), '($$e and not $r.alias) and ExpandSingleChild') or has_pat(ib.body_nodes(), '$$e and (not $r.alias) and ExpandSingleChild')
